@@ -4,24 +4,36 @@ EXTENDS Inputs, Json, TLC
 
 CONSTANT N
 
-VARIABLES g, oneOf
-vars == <<g, oneOf>>
+VARIABLES g, oneOf, pos
+vars == <<g, oneOf, pos>>
+
+\* The graph is built one ordered pair at a time (pair number pos, row-major), so that the same
+\* module serves exhaustive search (all graphs) and simulation (random graphs on more types).
+Pairs == [k \in 1..(N * N) |-> <<((k - 1) \div N) + 1, ((k - 1) % N) + 1>>]
+Done == pos > N * N
 
 Init == /\ oneOf \in [Nodes(N) -> BOOLEAN]
-        /\ g \in [Nodes(N) \X Nodes(N) -> Kinds]
-        \* members of an @oneOf type are nullable
-        /\ \A i \in Nodes(N), j \in Nodes(N) : oneOf[i] => g[<<i, j>>] \in NullableKinds
-Next == UNCHANGED vars
+        /\ g = [e \in Nodes(N) \X Nodes(N) |-> "none"]
+        /\ pos = 1
+
+\* members of an @oneOf type are nullable
+SetPair == /\ ~Done
+           /\ \E k \in Kinds :
+                 /\ (oneOf[Pairs[pos][1]] => k \in NullableKinds)
+                 /\ g' = [g EXCEPT ![Pairs[pos]] = k]
+           /\ pos' = pos + 1
+           /\ UNCHANGED oneOf
+Next == SetPair
 Spec == Init /\ [][Next]_vars
 
 \* the implementation's decision gives finite-size types on every graph ...
-DecisionSound == FiniteSize(g, N)
+DecisionSound == Done => FiniteSize(g, N)
 \* ... and its notion of "recursive" is exactly "lies on a cycle of by-value members"
-DecisionExact == \A x \in Nodes(N) : RecursiveByCode(g, N, x) = OnByValueCycle(g, N, x)
+DecisionExact == Done => \A x \in Nodes(N) : RecursiveByCode(g, N, x) = OnByValueCycle(g, N, x)
 
 Case == [n |-> N, oneOf |-> oneOf,
          edges |-> {[from |-> e[1], to |-> e[2], kind |-> g[e], boxed |-> Boxed(g, N, e[1], e[2])] :
                        e \in {x \in Nodes(N) \X Nodes(N) : g[x] # "none"}},
          recursive |-> {x \in Nodes(N) : OnByValueCycle(g, N, x)}]
-Emit == PrintT(<<"GRAPH", ToJson(Case)>>)
+Emit == Done => PrintT(<<"GRAPH", ToJson(Case)>>)
 =============================================================================
